@@ -254,4 +254,55 @@ def metricTypeTable : EnumTable := tbl [["summary"], ["dev"]]
 def writerVersionTable : EnumTable := tbl [["1.0"], ["2.0"]]
 def durationFormatTable : EnumTable := tbl [["pretty"], ["iso8601"]]
 
+/-! ### `ExplainAnalyzeCategories` (datafusion/common/src/format.rs) -/
+
+def categoryTable : EnumTable := tbl [["rows"], ["bytes"], ["timing"], ["uncategorized"]]
+
+/-- `All` | `Only(categories)`; categories as indices into `categoryTable` -/
+inductive Cats where
+  | all
+  | only (l : List Nat)
+  deriving DecidableEq, Repr
+
+/-- `str::split(',')` -/
+def splitComma : List Char → List (List Char)
+  | [] => [[]]
+  | c :: r =>
+    match splitComma r with
+    | [] => [[]]          -- unreachable
+    | p :: ps => if c == ',' then [] :: p :: ps else (c :: p) :: ps
+
+/-- `Vec::dedup`: consecutive repeats removed -/
+def dedupAdj : List Nat → List Nat
+  | [] => []
+  | [a] => [a]
+  | a :: b :: r => if a == b then dedupAdj (b :: r) else a :: dedupAdj (b :: r)
+
+/-- `impl FromStr for ExplainAnalyzeCategories`: trim + lower-case; `all`; `none`; otherwise every
+    comma-separated part must be a `MetricCategory` (each trimmed and lower-cased again), then `dedup` -/
+def parseCats (s : List Char) : Option Cats :=
+  let s := lowerAscii (trimBlanks s)
+  if s == "all".toList then some .all
+  else if s == "none".toList then some (.only [])
+  else ((splitComma s).mapM fun p => enumFind (trimBlanks p) categoryTable 0).map fun l => .only (dedupAdj l)
+
+def joinComma : List (List Char) → List Char
+  | [] => []
+  | [a] => a
+  | a :: r => a ++ ',' :: joinComma r
+
+/-- `impl Display for ExplainAnalyzeCategories` -/
+def showCats : Cats → List Char
+  | .all => "all".toList
+  | .only [] => "none".toList
+  | .only l => joinComma (l.map fun i => (enumShow categoryTable i).getD [])
+
+/-- every ordered selection of distinct categories out of `pool` (the empty one included) -/
+def selections : Nat → List Nat → List (List Nat)
+  | 0, _ => [[]]
+  | fuel + 1, pool => [] :: pool.flatMap fun i => (selections fuel (pool.filter (· != i))).map (i :: ·)
+
+/-- `All`, `Only([])`, and `Only(l)` for all 64 ordered selections of 1..4 distinct categories -/
+def allCats : List Cats := .all :: ((selections 4 [0, 1, 2, 3]).eraseDups.map .only)
+
 end DfModel.Text.Config
